@@ -43,6 +43,9 @@ type c18Msg struct {
 type c18Chunk struct {
 	Content string    `json:"content"`
 	Calls   []c18Call `json:"calls"`
+	// provider metadata the chunk carries besides content and tool calls (c18MetaTags):
+	// Extra entries, ResponseMeta, Name. The model has them (Chunk.extras) and ignores them.
+	Extras []string `json:"extras,omitempty"`
 }
 
 type c18Reply struct {
@@ -67,6 +70,10 @@ type c18Case struct {
 	MaxStep  int        `json:"maxStep"`
 	Modifier string     `json:"modifier"` // none | system | tail
 	Checker  string     `json:"checker"`  // default | whole
+	// "" / "agent": Agent.Generate / Agent.Stream; "chain" / "graph": the graph returned by
+	// Agent.ExportGraph() added (with the returned options) to a parent chain / graph, the
+	// parent run with Invoke / Stream
+	Host string `json:"host,omitempty"`
 	// implementation side only (the model does not distinguish them)
 	Indexed     bool `json:"indexed,omitempty"`     // streamed tool calls carry Index = position
 	ToolCalling bool `json:"toolCalling,omitempty"` // config.ToolCallingModel instead of config.Model
@@ -177,11 +184,44 @@ func (m *c18Model) next(input []*schema.Message) (*c18Reply, error) {
 	return r, nil
 }
 
+// metadata tags of a chunk and what they put on the schema.Message
+var c18MetaTags = []string{"extra:request_id", "extra:reasoning", "usage", "finish", "name"}
+
+func c18ApplyExtras(msg *schema.Message, tags []string, pos int) {
+	for _, t := range tags {
+		switch {
+		case strings.HasPrefix(t, "extra:"):
+			if msg.Extra == nil {
+				msg.Extra = map[string]any{}
+			}
+			msg.Extra[strings.TrimPrefix(t, "extra:")] = fmt.Sprintf("%s-%d;", strings.TrimPrefix(t, "extra:"), pos)
+		case t == "usage":
+			if msg.ResponseMeta == nil {
+				msg.ResponseMeta = &schema.ResponseMeta{}
+			}
+			msg.ResponseMeta.Usage = &schema.TokenUsage{PromptTokens: 7, CompletionTokens: pos + 1, TotalTokens: pos + 8}
+		case t == "finish":
+			if msg.ResponseMeta == nil {
+				msg.ResponseMeta = &schema.ResponseMeta{}
+			}
+			msg.ResponseMeta.FinishReason = "stop"
+		case t == "name":
+			msg.Name = "bot"
+		default:
+			if msg.Extra == nil {
+				msg.Extra = map[string]any{}
+			}
+			msg.Extra[t] = "x"
+		}
+	}
+}
+
 func (m *c18Model) chunkMsgs(r *c18Reply) []*schema.Message {
 	var out []*schema.Message
 	idx := 0
-	for _, ch := range r.Chunks {
+	for pos, ch := range r.Chunks {
 		msg := &schema.Message{Role: schema.Assistant, Content: ch.Content}
+		c18ApplyExtras(msg, ch.Extras, pos)
 		for _, c := range ch.Calls {
 			tc := schema.ToolCall{ID: c.ID, Type: "function", Function: schema.FunctionCall{Name: c.Name, Arguments: c.Args}}
 			if m.c.Indexed {
@@ -203,10 +243,37 @@ func (m *c18Model) Generate(ctx context.Context, input []*schema.Message, opts .
 	}
 	full := &schema.Message{Role: schema.Assistant}
 	var sb strings.Builder
-	for _, ch := range r.Chunks {
+	for pos, ch := range r.Chunks {
 		sb.WriteString(ch.Content)
 		for _, c := range ch.Calls {
 			full.ToolCalls = append(full.ToolCalls, schema.ToolCall{ID: c.ID, Type: "function", Function: schema.FunctionCall{Name: c.Name, Arguments: c.Args}})
+		}
+		// the whole message carries the metadata of all its chunks (string extras concatenated)
+		one := &schema.Message{}
+		c18ApplyExtras(one, ch.Extras, pos)
+		for k, v := range one.Extra {
+			if full.Extra == nil {
+				full.Extra = map[string]any{}
+			}
+			if old, ok := full.Extra[k].(string); ok {
+				full.Extra[k] = old + v.(string)
+			} else {
+				full.Extra[k] = v
+			}
+		}
+		if one.ResponseMeta != nil {
+			if full.ResponseMeta == nil {
+				full.ResponseMeta = &schema.ResponseMeta{}
+			}
+			if one.ResponseMeta.Usage != nil {
+				full.ResponseMeta.Usage = one.ResponseMeta.Usage
+			}
+			if one.ResponseMeta.FinishReason != "" {
+				full.ResponseMeta.FinishReason = one.ResponseMeta.FinishReason
+			}
+		}
+		if one.Name != "" {
+			full.Name = one.Name
 		}
 	}
 	full.Content = sb.String()
@@ -361,6 +428,8 @@ func c18TopoOf(info *compose.GraphInfo) (c18Topo, string) {
 
 type c18Built struct {
 	agent *react.Agent
+	// hosted cases: the parent chain / graph that embeds the exported agent graph
+	parent compose.Runnable[[]*schema.Message, *schema.Message]
 	mdl   *c18Model
 	rec   *c18Recorder
 	topo  c18Topo
@@ -414,6 +483,29 @@ func c18Build(c *c18Case) (*c18Built, error) {
 		return nil, err
 	}
 	b := &c18Built{agent: ag, mdl: mdl, rec: rec}
+	if c.Host == "chain" || c.Host == "graph" {
+		// the documented way to embed the agent: the exported graph plus the options that come with it
+		g, opts := ag.ExportGraph()
+		if c.Host == "chain" {
+			ch := compose.NewChain[[]*schema.Message, *schema.Message]()
+			ch.AppendGraph(g, opts...)
+			b.parent, err = ch.Compile(context.Background())
+		} else {
+			pg := compose.NewGraph[[]*schema.Message, *schema.Message]()
+			if err = pg.AddGraphNode("agent", g, opts...); err == nil {
+				if err = pg.AddEdge(compose.START, "agent"); err == nil {
+					if err = pg.AddEdge("agent", compose.END); err == nil {
+						b.parent, err = pg.Compile(context.Background())
+					}
+				}
+			}
+		}
+		if err != nil {
+			return nil, fmt.Errorf("parent %s around the exported agent graph: %w", c.Host, err)
+		}
+	} else if c.Host != "" && c.Host != "agent" {
+		return nil, fmt.Errorf("c18: unknown host %q", c.Host)
+	}
 	if cb.info != nil {
 		b.topo, b.note = c18TopoOf(cb.info)
 	} else {
@@ -471,7 +563,8 @@ func c18RunMode(b *c18Built, c *c18Case, stream bool) (run c18Run, class string)
 			}
 			return ctx
 		}).Build()
-	opt := agent.WithComposeOptions(compose.WithCallbacks(h))
+	copt := compose.WithCallbacks(h)
+	opt := agent.WithComposeOptions(copt)
 	var in []*schema.Message
 	for _, m := range c.Orig {
 		in = append(in, c18ToMsg(m))
@@ -484,11 +577,19 @@ func c18RunMode(b *c18Built, c *c18Case, stream bool) (run c18Run, class string)
 	panicked, val := vh.Safely(func() {
 		done = vh.WithTimeout(20*time.Second, func() {
 			if !stream {
-				res, err = b.agent.Generate(context.Background(), in, opt)
+				if b.parent != nil {
+					res, err = b.parent.Invoke(context.Background(), in, copt)
+				} else {
+					res, err = b.agent.Generate(context.Background(), in, opt)
+				}
 				return
 			}
 			var sr *schema.StreamReader[*schema.Message]
-			sr, err = b.agent.Stream(context.Background(), in, opt)
+			if b.parent != nil {
+				sr, err = b.parent.Stream(context.Background(), in, copt)
+			} else {
+				sr, err = b.agent.Stream(context.Background(), in, opt)
+			}
 			if err != nil {
 				return
 			}
@@ -618,6 +719,8 @@ func c18ReplyShape(r *c18Reply) string {
 			fmt.Fprintf(&sb, "T%d", len(ch.Calls))
 		case ch.Content != "":
 			sb.WriteString("c")
+		case len(ch.Extras) > 0:
+			sb.WriteString("m") // metadata only
 		default:
 			sb.WriteString("e")
 		}
@@ -657,7 +760,29 @@ func c18Key(c *c18Case) string {
 	for _, t := range c.Tools {
 		tk = append(tk, t.Name+":"+t.Kind)
 	}
-	return fmt.Sprintf("%s|%v|%v|%d|%s|%s|%d", strings.Join(shapes, ","), tk, c.RD, c.MaxStep, c.Modifier, c.Checker, len(c.Orig))
+	return fmt.Sprintf("%s|%v|%v|%d|%s|%s|%d|%s", strings.Join(shapes, ","), tk, c.RD, c.MaxStep, c.Modifier, c.Checker, len(c.Orig), c18Host(c))
+}
+
+func c18Host(c *c18Case) string {
+	if c.Host == "" {
+		return "agent"
+	}
+	return c.Host
+}
+
+// c18MetaHead: the reply has tool calls and, in front of the first chunk carrying one, a chunk
+// with neither content nor tool calls that carries metadata (what the default checker has to skip).
+func c18MetaHead(r *c18Reply) bool {
+	meta := false
+	for _, ch := range r.Chunks {
+		if len(ch.Calls) > 0 {
+			return meta
+		}
+		if ch.Content == "" && len(ch.Extras) > 0 {
+			meta = true
+		}
+	}
+	return false
 }
 
 const c18KnownSig = "C18:generate-vs-stream:default-first-chunk-checker:content-chunk-before-toolcall-chunk:stream-returns-assistant-with-toolcalls"
@@ -770,6 +895,25 @@ func c18GenReply(r *vh.Rand, k int, ncalls int, toolNames []string, forceLate bo
 	if len(chunks) == 0 {
 		chunks = append(chunks, c18Chunk{Calls: []c18Call{}})
 	}
+	// provider metadata: mostly on chunks that carry nothing else (request id / usage / finish
+	// reason / reasoning text arrive in chunks of their own), sometimes next to content or calls
+	pick := func() []string {
+		var out []string
+		for _, i := range r.Perm(len(c18MetaTags))[:r.Range(1, 2)] {
+			out = append(out, c18MetaTags[i])
+		}
+		sort.Strings(out)
+		return out
+	}
+	for i := range chunks {
+		blank := chunks[i].Content == "" && len(chunks[i].Calls) == 0
+		if (blank && r.Chance(45)) || (!blank && r.Chance(10)) {
+			chunks[i].Extras = pick()
+		}
+	}
+	if ncalls > 0 && r.Chance(12) { // a metadata-only head chunk in front of a tool-calling turn
+		chunks = append([]c18Chunk{{Calls: []c18Call{}, Extras: pick()}}, chunks...)
+	}
 	return c18Reply{Chunks: chunks}
 }
 
@@ -810,7 +954,16 @@ func c18Gen(r *vh.Rand) *c18Case {
 		}
 		c.Orig = append(c.Orig, c18Msg{Role: role, Content: fmt.Sprintf("q%d %s", i, c18Words[r.Intn(len(c18Words))]), Calls: []c18Call{}})
 	}
+	switch { // where the agent runs
+	case r.Chance(18):
+		c.Host = "chain"
+	case r.Chance(18):
+		c.Host = "graph"
+	}
 	n := r.Range(1, 8)
+	if c.Host != "" && r.Chance(35) {
+		n = r.Range(5, 12) // long enough to reach compose's default step limit (nodes + 10)
+	}
 	forceLate := r.Chance(6)
 	for k := 0; k < n; k++ {
 		ncalls := r.Range(1, 3)
@@ -825,7 +978,7 @@ func c18Gen(r *vh.Rand) *c18Case {
 		c.MaxStep = 0
 	case r.Chance(5):
 		c.MaxStep = -r.Range(1, 3)
-	case r.Chance(12):
+	case r.Chance(12) || (c.Host != "" && r.Chance(20)):
 		c.MaxStep = r.Range(13, 30)
 	default:
 		c.MaxStep = r.Range(1, 12)
@@ -852,6 +1005,60 @@ func c18Witness() *c18Case {
 		Tools: []c18Tool{{Name: "t", Kind: "echo"}}, RD: []string{}, MaxStep: 0, Modifier: "none", Checker: "default"}
 }
 
+// c18Corpus: small systematic families that run before the random part.
+//   - rounds x MaxStep x host x return-directly: a model that calls a tool `rounds` times and then
+//     answers, under step limits below / at / above compose's default (nodes + 10);
+//   - one tool-calling turn whose head chunk carries nothing but one kind of metadata, for every
+//     kind and the combinations "all" / two metadata-only chunks, default checker.
+func c18Corpus() []*c18Case {
+	var out []*c18Case
+	base := func() *c18Case {
+		return &c18Case{Kind: "run", Orig: []c18Msg{{Role: "user", Content: "q", Calls: []c18Call{}}},
+			Tools: []c18Tool{{Name: "t1", Kind: "echo"}, {Name: "t2", Kind: "const", Value: "v"}}, RD: []string{}, Modifier: "none", Checker: "default"}
+	}
+	call := func(k int, name string) c18Reply {
+		return c18Reply{Chunks: []c18Chunk{{Content: "", Calls: []c18Call{{ID: fmt.Sprintf("c%d", k), Name: name, Args: fmt.Sprintf("{\"k\":%d}", k)}}}}}
+	}
+	answer := c18Reply{Chunks: []c18Chunk{{Content: "fin", Calls: []c18Call{}}, {Content: "al", Calls: []c18Call{}}}}
+	for _, host := range []string{"", "chain", "graph"} {
+		for _, rd := range []bool{false, true} {
+			for _, rounds := range []int{3, 7, 10} {
+				for _, ms := range []int{0, 4, 12, 13, 14, 16, 40} {
+					c := base()
+					c.Host, c.MaxStep = host, ms
+					if rd {
+						c.RD = []string{"t2"} // never called: the topology with direct_return, 3 nodes
+					}
+					for k := 0; k < rounds; k++ {
+						c.Script = append(c.Script, call(k, "t1"))
+					}
+					c.Script = append(c.Script, answer)
+					out = append(out, c)
+				}
+			}
+		}
+	}
+	heads := [][][]string{}
+	for _, t := range c18MetaTags {
+		heads = append(heads, [][]string{{t}})
+	}
+	heads = append(heads, [][]string{c18MetaTags}, [][]string{{"usage"}, {"extra:request_id"}}, [][]string{{}, {"extra:reasoning"}})
+	for _, host := range []string{"", "chain"} {
+		for _, h := range heads {
+			c := base()
+			c.Host = host
+			var chunks []c18Chunk
+			for _, tags := range h {
+				chunks = append(chunks, c18Chunk{Calls: []c18Call{}, Extras: tags})
+			}
+			chunks = append(chunks, call(0, "t1").Chunks[0], c18Chunk{Content: "", Calls: []c18Call{{ID: "c0b", Name: "t2", Args: "{}"}}})
+			c.Script = []c18Reply{{Chunks: chunks}, answer}
+			out = append(out, c)
+		}
+	}
+	return out
+}
+
 // ---- one case ----
 
 func c18Shape(c *c18Case) string {
@@ -859,7 +1066,20 @@ func c18Shape(c *c18Case) string {
 	if len(c.RD) > 0 {
 		rd = "rd"
 	}
+	if c.Host != "" && c.Host != "agent" {
+		return fmt.Sprintf("checker=%s:%s:host=%s", c.Checker, rd, c.Host)
+	}
 	return fmt.Sprintf("checker=%s:%s", c.Checker, rd)
+}
+
+func c18Cmp(a, b int) string {
+	switch {
+	case a < b:
+		return "below"
+	case a > b:
+		return "above"
+	}
+	return "equal"
 }
 
 func c18DiffRun(model, impl *c18Run) string {
@@ -901,11 +1121,14 @@ func c18Check(ctx *vh.Ctx, c *c18Case, raw json.RawMessage, topoModel map[bool]j
 	c18NormRun(&str)
 
 	// accounting
-	late := false
+	late, metaHead := false, false
 	ncalls := 0
 	for i := range c.Script {
 		if c18Late(&c.Script[i]) {
 			late = true
+		}
+		if c18MetaHead(&c.Script[i]) {
+			metaHead = true
 		}
 		for _, ch := range c.Script[i].Chunks {
 			ncalls += len(ch.Calls)
@@ -916,6 +1139,16 @@ func c18Check(ctx *vh.Ctx, c *c18Case, raw json.RawMessage, topoModel map[bool]j
 	ctx.Res.Dist("modifier=" + c.Modifier)
 	ctx.Res.Dist(fmt.Sprintf("rd=%v", len(c.RD) > 0))
 	ctx.Res.Dist(fmt.Sprintf("late-toolcall-reply=%v", late))
+	ctx.Res.Dist(fmt.Sprintf("metadata-only-head-before-toolcall=%v", metaHead))
+	ctx.Res.Dist("host=" + c18Host(c))
+	if model.Limit != nil && c18Host(c) != "agent" {
+		// does the script distinguish MaxStep from compose's default (nodes + 10)?
+		def := 12
+		if len(c.RD) > 0 {
+			def = 13
+		}
+		ctx.Res.Dist(fmt.Sprintf("hosted:limit-hit=%v:limit-vs-default=%s", model.Generate.Result.Err == "maxSteps", c18Cmp(*model.Limit, def)))
+	}
 	switch {
 	case c.MaxStep < 0:
 		ctx.Res.Dist("maxStep<0")
@@ -954,7 +1187,7 @@ func c18Check(ctx *vh.Ctx, c *c18Case, raw json.RawMessage, topoModel map[bool]j
 	}{{"generate", &model.Generate, &gen, gclass}, {"stream", &model.Stream, &str, sclass}} {
 		if m.class != "returned" {
 			ctx.Res.Disagree(vh.Disagreement{Signature: fmt.Sprintf("C18:%s:%s:%s", m.n, m.class, c18Shape(c)),
-				What: fmt.Sprintf("Agent.%s did not return: %s", m.n, m.impl.Result.Err), Case: c, Model: m.model, Impl: m.impl})
+				What: fmt.Sprintf("Agent.%s (host %s) did not return: %s", m.n, c18Host(c), m.impl.Result.Err), Case: c, Model: m.model, Impl: m.impl})
 			continue
 		}
 		if malformed && m.n == "stream" {
@@ -962,7 +1195,7 @@ func c18Check(ctx *vh.Ctx, c *c18Case, raw json.RawMessage, topoModel map[bool]j
 		}
 		if d := c18DiffRun(m.model, m.impl); d != "" {
 			ctx.Res.Disagree(vh.Disagreement{Signature: fmt.Sprintf("C18:%s:%s:impl-differs-from-model:%s", m.n, d, c18Shape(c)),
-				What: fmt.Sprintf("%s: %s of the implementation differ from the model", m.n, d), Case: c, Model: m.model, Impl: m.impl})
+				What: fmt.Sprintf("%s (host %s): %s of the implementation differ from the model", m.n, c18Host(c), d), Case: c, Model: m.model, Impl: m.impl})
 		}
 	}
 	// (2) the property clause itself on the implementation: Generate and Stream agree
@@ -988,7 +1221,7 @@ func c18Check(ctx *vh.Ctx, c *c18Case, raw json.RawMessage, topoModel map[bool]j
 }
 
 func runC18(ctx *vh.Ctx) error {
-	ctx.Res.Rule = "random ReAct scripts: 1-8 replies with 0-3 tool calls streamed in 1-8 chunks (empty leading/middle chunks, calls in the first non-empty chunk / spread / behind content), 1-4 tools (echo/const/fail, invokable/streamable, unknown names, duplicate and empty call ids), return-directly sets, MaxStep <0/0/1-30, MessageModifier off/system/tail, default or whole-stream checker; Generate and Stream on the real agent vs the Lean model (model inputs, node executions, result/error class), Generate vs Stream, graph topology via compile callback; non-trivial = at least one tools round or the step limit was hit; distinct by (chunk shapes of every reply, tools, return-directly set, MaxStep, modifier, checker, #orig)"
+	ctx.Res.Rule = "random ReAct scripts: 1-8 (hosted: up to 12) replies with 0-3 tool calls streamed in 1-9 chunks (empty leading/middle chunks, chunks carrying only provider metadata — Extra entries / ResponseMeta usage, finish reason / Name — in front of, between and on content and tool-call chunks, calls in the first non-empty chunk / spread / behind content), 1-4 tools (echo/const/fail, invokable/streamable, unknown names, duplicate and empty call ids), return-directly sets, MaxStep <0/0/1-30, MessageModifier off/system/tail, default or whole-stream checker; host = Agent.Generate/Stream, or the graph from Agent.ExportGraph() added with its options to a parent chain / parent graph run with Invoke/Stream; both modes on the real agent vs the Lean model (model inputs, node executions, result/error class), Generate vs Stream, graph topology via compile callback; a systematic corpus first (looping and long scripts x MaxStep below/at/above compose's default x host; one metadata-only head chunk per metadata kind); non-trivial = at least one tools round or the step limit was hit; distinct by (chunk shapes of every reply, tools, return-directly set, MaxStep, modifier, checker, #orig, host)"
 	topoModel := map[bool]json.RawMessage{}
 	for _, rd := range []bool{false, true} {
 		raw, err := ctx.Oracle.Ask("C18", map[string]any{"kind": "topology", "rd": rd})
@@ -1014,6 +1247,12 @@ func runC18(ctx *vh.Ctx) error {
 	// the negation witness of the Lean side, replayed on the real code on every run
 	if err := one(c18Witness()); err != nil {
 		return err
+	}
+	// systematic corpus: step limits around compose's default in every host, metadata-only head chunks
+	for _, c := range c18Corpus() {
+		if err := one(c); err != nil {
+			return err
+		}
 	}
 	// (seeds k and k+1 of vh.Rand are one draw apart; forking passes through the mixer)
 	rng := ctx.Rng.Fork()
